@@ -204,7 +204,7 @@ func zzC19Pair(k int, bothSymbolic bool) {
 func ZZ_C19_equality_pairs_log()      { zzC19Pair(0, false) }
 func ZZ_C19_equality_pairs_linear()   { zzC19Pair(1, false) }
 func ZZ_C19_equality_pairs_cubic()    { zzC19Pair(2, false) }
-func ZZ_C19_equality_symmetric_T()    { zzC19Pair(0, true) }
+func ZZ_C19_equality_symmetric_X()    { zzC19Pair(0, true) }
 
 // accuracies 0.1% or more apart give unequal logarithmic mappings (the base formula is exact IEEE
 // division; for the interpolated kinds Pow is uninterpreted, so this is checked on a concrete grid)
@@ -233,7 +233,7 @@ func ZZ_C19_different_accuracies_unequal_grid() {
 	}
 }
 
-func ZZ_C19_log_accuracies_apart_unequal_T() {
+func ZZ_C19_log_accuracies_apart_unequal_X() {
 	a1 := zzvFloat64("alpha1")
 	a2 := zzvFloat64("alpha2")
 	zzvAssume(zzvAnd(a1 >= 1e-6, zzvAnd(a2 <= 0.99, a2 >= a1*1.001)))
